@@ -19,7 +19,7 @@ func init() {
 			},
 			Bounds: []string{
 				"Feistel network: every bit width 1..64 (one instance each), every 64-bit seed, every pair of inputs, ANY round function (uninterpreted) => injective and in range",
-				"shuffleIndex as a whole: every n in {2..8, 12..16} (quick; n = 9,10,11,17 need 6-16 rejection rounds and did not close within the time limit), thorough tries 2..33; every seed, any round function; rejection loop unrolled size-n+1 times with an unwinding assertion",
+				"shuffleIndex as a whole: every n in {2..8, 12..16} (quick) plus {28..32} (thorough); n = 9..11, 17..27, 33 need 6-16 rejection rounds and did not close within the time limit; every seed, any round function; rejection loop unrolled size-n+1 times with an unwinding assertion",
 				"file-backed manifest and reader: EVERY newline-terminated file of 1..7 (quick) / 1..10 (thorough) bytes, all bytes symbolic, read-window sizes 4 and 16 (refills exercised); os/bufio calls served by contracts from the symbolic byte array; loops unrolled size+2 times with unwinding assertions",
 				"Batches: every line count 1..500000 (loop unrolled 6 times, unwinding assertion); Chunks: by induction on the real iterator for every batch of 1..100000 lines at any offset below 2^40: first chunk correct and non-empty, continuation iff lines remain, second chunk of [s,e) == first chunk of [s+c,e) (iterator called with a yield that stops after 2 / 1 chunks)",
 			},
@@ -42,8 +42,8 @@ func init() {
 			maxn = 33
 		}
 		for n := int64(2); n <= maxn; n++ {
-			if tier != "thorough" && n >= 9 && n <= 11 || n == 17 {
-				continue // many rejection rounds: did not close within the time limit; covered by the lemmas only
+			if n >= 9 && n <= 11 || n >= 17 && n <= 27 || n == 33 {
+				continue // many rejection rounds (n just above a power of two): did not close within the time limit; covered by the lemmas only
 			}
 			size := int64(1)
 			for size < n {
